@@ -17,6 +17,8 @@ def plan(tier, seed):
     jobs.append(ch("C09", "vf/pyshim/h_c08.py", "h_overwrite_key_text", t, ["util.path_string",
                                                                             "writer.overwrite (key text expression)"]))
     jobs.append(ch("C09", F, "h_part_ids", t, ["api.part_ids"]))
+    jobs.append(ch("C09", F, "h_handle_after_remove", t, ["api.ParquetFile.remove_row_groups", "api.ParquetFile._set_attrs",
+                                                          "api.ParquetFile.statistics", "api.statistics"]))
     jobs.append(ch("C09", "vf/pyshim/h_c08.py", "h_partition_rows", t, ["writer.partition_on_columns"]))
     jobs.append(ch("C09", G, "h_find_max_part", t, ["writer.find_max_part", "api.part_ids"]))
     jobs.append(ch("C09", G, "h_find_max_part_dirs", t, ["writer.find_max_part", "api.part_ids"]))
